@@ -17,7 +17,7 @@ func init() {
 			"is the result of the RFC current-age function; each return path applies exactly one status of the right class (from-store: HIT/STALE/REVALIDATED on the stored " +
 			"header, origin: MISS/BYPASS on the origin header); REVALIDATED only under status==304; HIT unreachable when the staleness flag is set; the legacy marker is " +
 			"written or cleared on every path; the synthesised 504 carries BYPASS and no legacy marker; Set (not Add) is used.",
-		NotDecided:  "numeric Age (+-1 s); truthfulness of HIT when max-stale relaxed the staleness flag.",
+		NotDecided:  "numeric Age (+-1 s); whether the status text is the right one among the from-store statuses when several conditions hold at once.",
 		Assumptions: []string{"R-FRESH (checked)", "status variables are written only in the package initialiser (checked under C16.4)"},
 		Rules: []Rule{
 			{ID: "C11.0", Desc: "shared premises", Run: func(c *Ctx) { ruleRFRESH(c, "C11.0") }, MinSites: 1},
